@@ -8,6 +8,7 @@
      spec/Kernel.tla (spec/KernelTrace.tla constrains the model's log to the recording).
 """
 import asyncio
+import bisect
 import copy
 import hashlib
 import hmac
@@ -56,6 +57,93 @@ class CapWriter:
 
     def close(self):
         self.closed = True
+
+
+class SchedWriter(CapWriter):
+    """Writer whose drain() suspends the caller for a scheduled number of loop iterations (0 = returns at
+    once, the unpaused transport).  Any schedule is a legal StreamWriter: drain() may suspend for as long
+    as the peer does not read.  Records which sending task issued every write()."""
+
+    def __init__(self, sched):
+        super().__init__()
+        self.sched = list(sched) or [0]
+        self.ndrain = 0
+        self.writes = []         # (sender, number of octets)
+        self.inside = {}         # sender -> number of writes of the send routine it is in (absent: not sending)
+        self.overlap = 0         # writes issued while another sender was suspended inside a send routine
+        self.suspended = 0
+
+    def write(self, b):
+        who = asyncio.current_task().get_name()
+        if any(o != who and n > 0 for o, n in self.inside.items()):
+            self.overlap += 1
+        if who in self.inside:
+            self.inside[who] += 1
+        self.writes.append((who, len(b)))
+        super().write(b)
+
+    async def drain(self):
+        n = self.sched[self.ndrain % len(self.sched)]
+        self.ndrain += 1
+        if n:
+            self.suspended += 1
+        for _ in range(n):
+            await asyncio.sleep(0)
+
+
+class PressureWriter(CapWriter):
+    """In-memory stand-in for StreamWriter + transport flow control (asyncio FlowControlMixin): the peer
+    takes `rate` octets every `dt` (virtual) seconds; the transport is paused as soon as more than `high`
+    octets are waiting and resumed when at most `low` are left; drain() returns at once while the transport
+    is not paused and suspends the caller while it is; all waiters are released together, in FIFO order."""
+
+    def __init__(self, name, seq, loop, high, low, rate, dt):
+        super().__init__(name, seq)
+        self.loop, self.high, self.low, self.rate, self.dt = loop, high, min(low, high), max(1, rate), dt
+        self.pending = 0
+        self.paused = False
+        self.waiters = []
+        self.timer = None
+        self.stats = {"suspended": 0, "concurrent": 0, "pauses": 0}
+
+    def write(self, b):
+        super().write(b)
+        self.pending += len(b)
+        if self.pending > self.high and not self.paused:
+            self.paused = True
+            self.stats["pauses"] += 1
+        if self.timer is None and self.pending:
+            self.timer = self.loop.call_later(self.dt, self._take)
+
+    def _take(self):
+        self.timer = None
+        self.pending = max(0, self.pending - self.rate)
+        if self.paused and self.pending <= self.low:
+            self.paused = False
+            ws, self.waiters = self.waiters, []
+            for w in ws:
+                if not w.done():
+                    w.set_result(None)
+        if self.pending:
+            self.timer = self.loop.call_later(self.dt, self._take)
+
+    async def drain(self):
+        if not self.paused:
+            return
+        self.stats["suspended"] += 1
+        if any(not w.done() for w in self.waiters):
+            self.stats["concurrent"] += 1          # another sender is already suspended on this connection
+        w = self.loop.create_future()
+        self.waiters.append(w)
+        await w
+
+    def busy(self):
+        return self.pending > 0 or any(not w.done() for w in self.waiters)
+
+    def stop(self):
+        if self.timer is not None:
+            self.timer.cancel()
+            self.timer = None
 
 
 def new_loop():
@@ -149,6 +237,79 @@ async def frames_roundtrip(items, chunks):
     return {"wire": rle(wire), "got": got, "left": left}
 
 
+async def call_send(s, it):
+    b = item_bytes(it)
+    if b["k"] == "msg":
+        await s.send_multipart(list(b["frames"]))
+    elif b["k"] == "single":
+        await s.send(b["body"])
+    else:
+        await s.send_cmd(b["name"], b["params"])
+
+
+async def conc_roundtrip(senders, sched, starts, chunks):
+    """Several tasks send their items (rle form) on ONE ZmqSocket whose writer's drain() suspends them
+    according to `sched`; task k starts after starts[k] loop iterations.  The octets are then fed in
+    `chunks` to the receiving side, which reads multipart messages until the end of the stream."""
+    from custom_components.pyscript.jupyter_kernel import ZmqSocket
+    w = SchedWriter(sched)
+    s = ZmqSocket(None, w, "PUB")
+    errs = []
+
+    async def sender(k):
+        me = asyncio.current_task().get_name()
+        for _ in range(starts[k % len(starts)] if starts else 0):
+            await asyncio.sleep(0)
+        for it in senders[k]:
+            w.inside[me] = 0
+            try:
+                await call_send(s, it)
+            except Exception as e:  # a send routine that raises loses the message
+                errs.append("send:" + type(e).__name__)
+                return
+            finally:
+                w.inside.pop(me, None)
+
+    tasks = [asyncio.ensure_future(sender(k)) for k in range(len(senders))]
+    for k, t in enumerate(tasks):
+        t.set_name("s%d" % (k + 1))
+    await asyncio.wait_for(asyncio.gather(*tasks), 30)
+    wire = bytes(w.buf)
+    reader = asyncio.StreamReader()
+    rs = ZmqSocket(reader, CapWriter(), "SUB")
+
+    async def feeder():
+        pos = 0
+        for c in chunks:
+            if pos >= len(wire):
+                break
+            reader.feed_data(wire[pos:pos + c])
+            pos += c
+            await asyncio.sleep(0)
+        if pos < len(wire):
+            reader.feed_data(wire[pos:])
+        reader.feed_eof()
+
+    ft = asyncio.ensure_future(feeder())
+    got = []
+    nmsg = sum(1 for its in senders for it in its if it["k"] != "cmd")
+    while len(got) <= nmsg + 8:
+        try:
+            r = await asyncio.wait_for(rs.recv_multipart(), 5)
+            got.append({"k": "msg", "frames": [rle(f) for f in r]})
+        except EOFError:
+            break                                # a clean end of the stream, or a torn message: `left` / `got` tell
+        except Exception as e:
+            got.append({"k": "err", "what": type(e).__name__})
+            break
+    await ft
+    left = len(reader._buffer)
+    for e in errs:
+        got.append({"k": "err", "what": e})
+    return {"wire": rle(wire), "got": got, "left": left, "writes": [[a, b] for a, b in w.writes], "overlap": w.overlap,
+            "suspended": w.suspended, "ndrain": w.ndrain}
+
+
 def fill_bytes(r, n):
     """Random contents for short strings; longer ones: random head and tail around a constant fill
     (keeps the run-length form small, still detects offset errors)."""
@@ -208,6 +369,21 @@ HEADS = [
 ]
 
 
+def _m(*frames):
+    return {"k": "msg", "frames": list(frames)}
+
+
+# tiny programs of concurrent senders: every drain() schedule over {0, 1, 2} and three start orders
+CONC_PROGS = [
+    [[_m(b"a", b"bb")], [_m(b"", b"c")]],
+    [[_m(b"id", b"<I>", b"xy")], [{"k": "single", "body": b"hb"}]],
+    [[_m(b"a"), _m(b"b", b"")], [_m(b"c", b"d")]],
+    [[_m(b"\x01" * 256, b"q")], [_m(b"r", b"\x02" * 300)]],
+    [[_m(b"a", b"b")], [_m(b"c", b"d")], [_m(b"e", b"f")]],
+]
+CONC_STARTS = [[0, 0, 0], [0, 1, 2], [1, 0, 0]]
+
+
 def rle_items(items):
     out = []
     for it in items:
@@ -233,13 +409,46 @@ async def frames_job(job):
                 break
             pos += c
             used += 1
-        out.append({"id": cid, "fam": fam, "items": items, "chunks": chunks[:used] if pos >= total else chunks + [total - pos],
+        out.append({"id": cid, "fam": fam, "items": items, "senders": [items], "recv": "match",
+                    "chunks": chunks[:used] if pos >= total else chunks + [total - pos],
+                    "nchunks": used if pos >= total else used + 1, **res})
+
+    async def conc(cid, senders, sched, starts, chunks, fam):
+        res = await conc_roundtrip(senders, sched, starts, chunks)
+        total = sum(x["n"] for x in res["wire"])
+        used = pos = 0
+        for c in chunks:
+            if pos >= total:
+                break
+            pos += c
+            used += 1
+        out.append({"id": cid, "fam": fam, "senders": senders, "recv": "multipart", "items": [it for its in senders for it in its],
+                    "sched": sched, "starts": starts, "chunks": chunks[:used] if pos >= total else chunks + [total - pos],
                     "nchunks": used if pos >= total else used + 1, **res})
 
     if job.get("replay"):
         rc = job["replay"]
-        await one(rc["id"], rc["items"], rc["chunks"], rc.get("fam", "replay"))
+        if rc.get("senders") and rc.get("recv") == "multipart":
+            await conc(rc["id"], rc["senders"], rc["sched"], rc["starts"], rc["chunks"], rc.get("fam", "replay"))
+        else:
+            await one(rc["id"], rc["items"], rc["chunks"], rc.get("fam", "replay"))
         return out
+    for idx in job.get("conc_exhaustive", []):
+        senders = [rle_items(its) for its in CONC_PROGS[idx]]
+        k = min(4, sum(len(its) for its in senders))
+        for n, sched in enumerate(itertools.product([0, 1, 2], repeat=k)):
+            for st in range(len(CONC_STARTS)):
+                await conc("conc%d/%d/%d" % (idx, n, st), senders, list(sched), CONC_STARTS[st], [1 << 20], "conc-exhaustive")
+    for n in range(job.get("conc_random", 0)):
+        ns = r.choice([2, 2, 2, 3])
+        senders = []
+        for _ in range(ns):
+            its = [it for it in gen_items(r, big=(n % 4 == 0)) if it["k"] != "cmd" or r.random() < 0.3]
+            senders.append(its or [{"k": "msg", "frames": [rle(b"z"), rle(b"")]}])
+        sched = [r.choice([0, 0, 1, 1, 2, 3, 5]) for _ in range(r.randint(1, 8))]
+        starts = [r.randint(0, 3) for _ in range(ns)]
+        chunks = [1 << 20] if r.random() < 0.5 else [r.choice([1, 2, 3, 7, 8, 9, 10, 64, 255, 256, 257, 1000, 65536]) for _ in range(400)]
+        await conc("crnd%d/%d" % (job["seed"], n), senders, sched, starts, chunks, "conc-random")
     for k in job.get("exhaustive", []):
         fam, idx = k
         if fam == "tiny":
@@ -382,10 +591,52 @@ ERRORS = [("1 / 0", "ZeroDivisionError"), ("undefined_name_zz", "NameError"), ("
 SYNTAX = ["x = = 1", "def f(:\n    pass", "for in range(3): pass", "print('a'", "1 +"]
 
 
-def gen_cell(r, rid, allow=("ok", "stmt", "print", "err", "perr", "syntax")):
+# sizes of stdout bursts (records emitted by one cell without yielding to the event loop): around the powers of two and the
+# round numbers at which a buffer between the cell and the iopub socket would plausibly be bounded
+BURSTS_QUICK = [7, 64, 100, 255, 256, 257, 300, 512, 513, 1000, 1025, 2049]
+BURSTS_THOROUGH = BURSTS_QUICK + [33, 129, 1023, 1024, 2048, 4096, 4097, 8193, 10001]
+
+
+def gen_burst_cell(r, rid, n):
+    """A cell that emits n stdout records in one go, then ends with nothing / the session memory / an error."""
+    d = {"runs": True, "append": r.random() < 0.5, "prints": ["b%d.%d" % (rid, i) for i in range(n)], "out": "none", "ename": "", "rtext": ""}
+    lines = ["vf.mark(%d)" % rid]
+    if d["append"]:
+        lines.append("acc = acc + [%d]" % rid)
+    style = r.randrange(6)
+    emit = r.choice(["log.info", "print", "log.warning"])
+    if style == 0:
+        lines.append("for _i in range(%d):\n    %s('b%d.' + str(_i))" % (n, emit, rid))
+    elif style == 1:
+        lines.append("_i = 0\nwhile _i < %d:\n    %s('b%d.%%d' %% _i)\n    _i += 1" % (n, emit, rid))
+    elif style == 2:
+        lines.append("def burst_%d(k):\n    %s('b%d.' + str(k))\n    return k\n_n = [burst_%d(_i) for _i in range(%d)]" % (rid, emit, rid, rid, n))
+    elif style == 3:                          # two halves, nothing in between
+        h = n // 2
+        lines.append("for _i in range(%d):\n    %s('b%d.' + str(_i))\nfor _i in range(%d, %d):\n    %s('b%d.' + str(_i))" % (h, emit, rid, h, n, emit, rid))
+    elif style == 4:                          # the loop yields to the event loop now and then: several smaller bursts
+        m = r.choice([2, 50, 255, 256, 257])
+        lines.append("for _i in range(%d):\n    %s('b%d.' + str(_i))\n    if _i %% %d == %d:\n        task.sleep(0.01)" % (n, emit, rid, m, m - 1))
+    else:                                     # a burst on top of records already waiting
+        lines.insert(1, "%s('b%d.0')\n%s('b%d.1')" % (emit, rid, emit, rid))
+        lines.append("for _i in range(2, %d):\n    %s('b%d.' + str(_i))" % (n, emit, rid))
+    x = r.random()
+    if x < 0.25:
+        src, en = r.choice(ERRORS)
+        d.update(out="error", ename=en)
+        lines.append(src)
+    elif x < 0.6:
+        d["out"] = "acc"
+        lines.append("acc")
+    return d, "\n".join(lines)
+
+
+def gen_cell(r, rid, allow=("ok", "stmt", "print", "err", "perr", "syntax"), burst=None):
     """-> (descriptor for TLC, source).  The descriptor is known by construction, not computed from
     what the kernel answers."""
     kind = r.choice(allow)
+    if kind == "burst":
+        return gen_burst_cell(r, rid, burst or r.choice(BURSTS_QUICK[:4]))
     d = {"runs": True, "append": False, "prints": [], "out": "none", "ename": "", "rtext": ""}
     if kind == "syntax":
         d.update(runs=False, out="error", ename="SyntaxError")
@@ -395,7 +646,7 @@ def gen_cell(r, rid, allow=("ok", "stmt", "print", "err", "perr", "syntax")):
         d["append"] = True
         lines.append("acc = acc + [%d]" % rid)
     if kind in ("print", "perr") or r.random() < 0.25:
-        style = r.randrange(6)
+        style = r.randrange(7)
         t = ["%s%d.%d" % (r.choice(["out", "ünï", "a b", "tab\t", "'q'"]), rid, k) for k in range(r.randint(1, 3))]
         if style == 0:
             lines += ["print(%r)" % x for x in t]
@@ -407,9 +658,13 @@ def gen_cell(r, rid, allow=("ok", "stmt", "print", "err", "perr", "syntax")):
             lines += ["for _x in %r:\n    print(_x)" % (t,)]
         elif style == 4:                      # yields to the event loop between prints
             lines += [("print(%r)\ntask.sleep(0.5)" % x) for x in t]
-        else:
+        elif style == 5:
             t = ["m%d\nsecond line" % rid]
             lines += ["print(%r)" % t[0]]
+        else:                                 # one long record (a long ZMTP frame on iopub when it exceeds 255 / 65535 octets)
+            n = r.choice([250, 300, 5000, 66000])
+            t = ["L%d." % rid + "y" * n]
+            lines += ["print('L%d.' + 'y' * %d)" % (rid, n)]
         d["prints"] = list(t)
     if kind in ("err", "perr"):
         src, en = r.choice(ERRORS)
@@ -444,7 +699,7 @@ OTHER_KINDS = ["kernel_info_request", "complete_request", "is_complete_request",
 IDENTS = [[b"client-1"], [b"\x00\x80\xfe\x01k"], [b"c2", b"route-7"], []]
 
 
-def gen_request(r, rid, tags, forged_ok=True):
+def gen_request(r, rid, tags, forged_ok=True, burst=None):
     tag = r.choice(tags)
     q = {"id": rid, "ids": [x.hex() for x in r.choice(IDENTS)], "store": None, "key": "K", "tamper": None, "cell": dict(NOCELL), "src": ""}
     if tag in OTHER_KINDS:
@@ -459,7 +714,7 @@ def gen_request(r, rid, tags, forged_ok=True):
         return q
     q["kind"] = "execute_request"
     cell_tag = tag if not tag.startswith("forged") else "ok"
-    q["cell"], q["src"] = gen_cell(r, rid, allow=(cell_tag,))
+    q["cell"], q["src"] = gen_cell(r, rid, allow=(cell_tag,), burst=burst)
     q["store"] = r.choice([None, None, True, False])
     q["content"] = {"code": q["src"], "silent": False}
     if q["store"] is not None:
@@ -603,16 +858,35 @@ async def run_session(env, scn):
     tasks = [asyncio.ensure_future(k.housekeep_run())]
     k.iopub_server = FakeServer()
     shells, subs = [], []
+    press = scn.get("pressure") or {}
+
+    def writer(name):
+        pp = press.get(name)
+        return PressureWriter(name, seq, loop, pp["high"], pp["low"], pp["rate"], pp["dt"]) if pp else CapWriter(name, seq)
+
     for i in range(scn.get("subs", 1)):
-        rd, wr = asyncio.StreamReader(), CapWriter("io%d" % (i + 1), seq)
+        rd, wr = asyncio.StreamReader(), writer("io%d" % (i + 1))
         subs.append((rd, wr, asyncio.ensure_future(k.iopub_listen(rd, wr))))
         rd.feed_data(GREETING + ready_cmd(b"SUB"))
     for i in range(scn.get("shells", 1)):
-        rd, wr = asyncio.StreamReader(), CapWriter("sh%d" % (i + 1), seq)
+        rd, wr = asyncio.StreamReader(), writer("sh%d" % (i + 1))
         shells.append((rd, wr, asyncio.ensure_future(k.shell_listen(rd, wr))))
         rd.feed_data(GREETING + ready_cmd(b"DEALER"))
-    await asyncio.sleep(0.1)
-    await settle(loop)
+    pws = [wr for _, wr, _ in shells + subs if isinstance(wr, PressureWriter)]
+
+    async def quiesce(t):
+        """Virtual time passes until every cell has finished and every slow peer has taken what was written."""
+        await asyncio.sleep(t)
+        for _ in range(400):
+            await settle(loop)                         # (a sender released by its peer runs before the peers are looked at)
+            if not any(w.busy() for w in pws):
+                return
+            await asyncio.sleep(t)
+        raise MachineryFailure("session %s: a slow peer never catches up" % scn["sid"])
+
+    await quiesce(0.1)
+    if len(k.iopub_socket) != len(subs) or any(t.done() for _, _, t in shells + subs):
+        raise MachineryFailure("session %s: the connections were not established" % scn["sid"])
     reqs = []
     r = random.Random(scn.get("chunk_seed", 0))
     for burst in scn["bursts"]:
@@ -638,8 +912,7 @@ async def run_session(env, scn):
                 seq.append(("req", line))
                 rd.feed_data(wire)
             reqs.append(line)
-        await asyncio.sleep(30.0)                      # virtual seconds: every cell of the burst has finished
-        await settle(loop)
+        await quiesce(30.0)                            # virtual seconds: every cell of the burst has finished
     closed = all(t.done() for _, _, t in shells)
     # ---- assemble the recording in the order things happened
     writes = {}
@@ -649,40 +922,49 @@ async def run_session(env, scn):
 
     def when(name, end):
         """Position in the global order of the write() that completed the message ending at `end`."""
-        for off, i in writes.get(name, []):
-            if off >= end:
-                return i
-        return 10 ** 9
-    events = []
+        ws = writes.get(name, [])
+        j = bisect.bisect_left(ws, (end, -1))          # offsets grow with every write
+        return ws[j][1] if j < len(ws) else 10 ** 9
+    base = []
     for i, ev in enumerate(seq):
         if ev[0] == "req":
-            events.append((i, ev[1]))
+            base.append((i, ev[1]))
         elif ev[0] == "exec":
-            events.append((i, {"e": "exec", "id": ev[1]}))
-    io2 = []
+            base.append((i, {"e": "exec", "id": ev[1]}))
+    views = []                                         # what each iopub subscriber received, with the position of each message
     for ch, group in (("shell", shells), ("iopub", subs)):
         for n, (_, wr, _) in enumerate(group):
             msgs, garbled = parse_stream(wr.buf)
             outs = [(when(wr.name, end), abstract_out(ch, n + 1 if ch == "shell" else 0, parts, key)) for end, parts in msgs]
             if garbled:
                 outs.append((10 ** 9, dict(OUT0, ch=ch, t="garbled:stream")))
-            if ch == "iopub" and n >= 1:
-                if n == 1:
-                    io2 = [o for _, o in outs]
+            if ch == "iopub":
+                views.append(outs)
             else:
-                events += outs
-    events.sort(key=lambda x: x[0])
+                base += outs
     for t in tasks + [x[2] for x in shells + subs]:
         t.cancel()
+    for w in pws:
+        w.stop()
     await asyncio.sleep(0.1)
     env.seq = None
     if name in GlobalContextMgr.contexts:
         GlobalContextMgr.delete(name)
     a.remove_logger_handler(k.console)
-    trace = [e for _, e in events]
-    if scn.get("subs", 1) < 2:
-        io2 = [e for e in trace if e["e"] == "out" and e["ch"] == "iopub"]
-    return {"id": scn["sid"], "trace": trace, "closed": closed, "io2": io2}
+    stats = {"suspended": sum(w.stats["suspended"] for w in pws), "concurrent": sum(w.stats["concurrent"] for w in pws),
+             "pauses": sum(w.stats["pauses"] for w in pws)}
+
+    def trace_of(view):
+        return [e for _, e in sorted(base + view, key=lambda x: x[0])]
+    if press:
+        # under back-pressure the subscribers are served at different times (a send to the set of subscribers is
+        # suspended at the slow one): each subscriber's view of the session, together with the shell connections,
+        # must be a behaviour of the specification; that the views are identical is not demanded
+        cases = [{"id": "%s#io%d" % (scn["sid"], n + 1), "trace": trace_of(v), "closed": closed, "io2": [o for _, o in v]} for n, v in enumerate(views)]
+    else:
+        io2 = [o for _, o in (views[1] if len(views) > 1 else views[0])]
+        cases = [{"id": scn["sid"], "trace": trace_of(views[0]), "closed": closed, "io2": io2}]
+    return cases, stats
 
 
 # ---------------------------------------------------------------- scenarios
@@ -694,7 +976,7 @@ def is_err_print(q):
     return q["kind"] == "execute_request" and q["cell"]["out"] == "error" and q["cell"]["prints"] and q["tamper"] is None and q["key"] == "K"
 
 
-def gen_scenario(r, sid, mask, long=False):
+def gen_scenario(r, sid, mask, long=False, burst=False):
     """mask=True: generator mask of the known finding (an error cell that printed is never followed
     by another request in the same pipelined burst)."""
     rid = 0
@@ -707,7 +989,7 @@ def gen_scenario(r, sid, mask, long=False):
         for _ in range(r.choice([1, 1, 2, 3])):
             rid += 1
             forged = r.random() < (0.12 if not dead else 0.0)
-            q = gen_request(r, rid, FORGED if forged else ALL_TAGS)
+            q = gen_request(r, rid, FORGED if forged else ALL_TAGS + (["burst", "burst", "print", "perr"] if burst else []))
             reqs.append(q)
             if forged:
                 dead = r.random() < 0.7       # mostly the last thing the session sees
@@ -718,6 +1000,55 @@ def gen_scenario(r, sid, mask, long=False):
         if dead:
             break
     return {"sid": sid, "bursts": bursts, "subs": r.choice([1, 2, 2]), "shells": shells, "chunk_seed": r.randrange(1 << 30), "mask": mask}
+
+
+def est_octets(scn):
+    """Rough number of octets the kernel will publish on one iopub connection (to keep slow peers finite)."""
+    n = 0
+    for b in scn["bursts"]:
+        for q in b["reqs"]:
+            n += 900 * (6 + len(q["cell"]["prints"])) + sum(len(x) for x in q["cell"]["prints"])
+    return n
+
+
+def add_pressure(r, scn, force_iopub=True):
+    """Slow peers: every connection of the session gets its own flow-control parameters (or none).  `high` is the
+    transport's high-water mark (asyncio: 64 KiB by default, configurable; 0 pauses at every write), the peer takes
+    `rate` octets every `dt` virtual seconds (dt = 0: at every iteration of the event loop)."""
+    est = est_octets(scn)
+    pr = {}
+    names = ["io%d" % (i + 1) for i in range(scn["subs"])] + ["sh%d" % (i + 1) for i in range(scn["shells"])]
+    for k, nm in enumerate(names):
+        if nm.startswith("sh") and r.random() < 0.6:
+            continue
+        if nm.startswith("io") and not (force_iopub and k == 0) and r.random() < 0.3:
+            continue
+        high = r.choice([0, 0, 1, 64, 300, 700, 2000, 5000, 65536])
+        rate = max(r.choice([1, 7, 64, 200, 500, 1000, 5000, 10 ** 6]), est // 20000 + 1)
+        pr[nm] = {"high": high, "low": r.choice([0, high // 4, high]), "rate": rate, "dt": r.choice([0, 0, 0.001, 0.05])}
+    scn["pressure"] = pr
+    return scn
+
+
+def burst_scenario(r, sid, n, pressure):
+    """A cell emitting n stdout records in one go, alone or among other requests (before / behind it, pipelined or not)."""
+    rid = 0
+    bursts = []
+    placed = False
+    for b in range(r.choice([1, 1, 2])):
+        reqs = []
+        for _ in range(r.choice([1, 2, 3])):
+            rid += 1
+            here = not placed and r.random() < 0.5
+            q = gen_request(r, rid, ["burst"] if here else ALL_TAGS + ["burst"], burst=n if here else None)
+            placed = placed or here
+            reqs.append(q)
+        bursts.append({"conn": 1, "reqs": reqs, "chunked": r.random() < 0.2})
+    if not placed:
+        rid += 1
+        bursts.append({"conn": 1, "reqs": [gen_request(r, rid, ["burst"], burst=n)]})
+    scn = {"sid": sid, "bursts": bursts, "subs": r.choice([1, 2]), "shells": 1, "chunk_seed": r.randrange(1 << 30), "mask": True}
+    return add_pressure(r, scn) if pressure else scn
 
 
 SMALL = {"id": 2, "ids": [b"c".hex()], "store": None, "key": "K", "tamper": None, "kind": "execute_request",
@@ -770,12 +1101,18 @@ async def sessions_job(job):
             scns = job["scns"]
         elif job["family"] == "bits":
             scns = [bit_scenario(f, b, (b // 3) % 2 == 0) for f, b in job["bits"]]
+        elif job["family"] == "press":
+            scns = [add_pressure(r, gen_scenario(r, "p%d/%d" % (job["seed"], n), True, long=job.get("long", False), burst=True))
+                    for n in range(job["count"])]
+        elif job["family"] == "burst":
+            scns = [burst_scenario(r, "b%d/%d/%d" % (job["seed"], k, n), n, pressure=bool(k % 2)) for k, n in job["sizes"]]
         else:
             scns = [gen_scenario(r, "%s%d/%d" % ("m" if job["mask"] else "u", job["seed"], n), job["mask"], long=job.get("long", False))
                     for n in range(job["count"])]
         for scn in scns:
-            case = await run_session(env, scn)
-            out.append({"scn": scn, "case": case})
+            cases, stats = await run_session(env, scn)
+            for case in cases:
+                out.append({"scn": scn, "case": case, "stats": stats})
     return out
 
 
@@ -817,7 +1154,7 @@ def split(xs, n):
 
 def validate_frames(ctx, recs, label, nproc=8, defer=None):
     """recs: outputs of frames_job.  Returns the TLC rejects (dicts with id)."""
-    cases = [{k: c[k] for k in ("id", "items", "wire", "got", "left")} for c in recs]
+    cases = [{k: c[k] for k in ("id", "senders", "recv", "wire", "got", "left")} for c in recs]
     rejects = []
 
     def run(i, chunk):
@@ -882,10 +1219,16 @@ def zmtp_cfg(maxlen, maxframes, chunks, cmd, invs):
             % (maxlen, maxframes, chunks, "TRUE" if cmd else "FALSE")) + "".join("INVARIANT %s\n" % i for i in invs) + "CHECK_DEADLOCK FALSE\n"
 
 
-def kernel_cfg(mech, maxreqs, tags, two, stores, invs, pipelining=True):
-    return ("SPECIFICATION Spec\nCONSTANTS Mech = \"%s\"\n SessionKey = \"K\"\n MaxReqs = %d\n Tags = {%s}\n TwoClients = %s\n Stores = {%s}\n Pipelining = %s\n"
-            % (mech, maxreqs, ", ".join('"%s"' % t for t in tags), "TRUE" if two else "FALSE", ", ".join(stores), "TRUE" if pipelining else "FALSE")
+def kernel_cfg(mech, maxreqs, tags, two, stores, invs, pipelining=True, burst=3, hqbound=0):
+    return ("SPECIFICATION Spec\nCONSTANTS Mech = \"%s\"\n SessionKey = \"K\"\n HqBound = %d\n MaxReqs = %d\n Burst = %d\n Tags = {%s}\n TwoClients = %s\n Stores = {%s}\n Pipelining = %s\n"
+            % (mech, hqbound, maxreqs, burst, ", ".join('"%s"' % t for t in tags), "TRUE" if two else "FALSE", ", ".join(stores), "TRUE" if pipelining else "FALSE")
             ) + "".join("INVARIANT %s\n" % i for i in invs) + "CHECK_DEADLOCK FALSE\n"
+
+
+def send_cfg(shortmax, maxlen, maxframes, byte, nsenders, maxmsgs1, grain, invs, witnesses=True):
+    return ("SPECIFICATION Spec\nCONSTANTS ShortMax = %d\n MaxLen = %d\n MaxFrames = %d\n Byte = {%s}\n NSenders = %d\n MaxMsgs1 = %d\n Grain = \"%s\"\n"
+            % (shortmax, maxlen, maxframes, ", ".join(map(str, byte)), nsenders, maxmsgs1, grain)
+            ) + "".join("INVARIANT %s\n" % i for i in invs) + ("CONSTRAINT TrackW\nPOSTCONDITION WitnessesSeen\n" if witnesses else "") + "CHECK_DEADLOCK FALSE\n"
 
 
 def mc_tasks(ctx):
@@ -904,6 +1247,19 @@ def mc_tasks(ctx):
         T.append(("Zmtp all chunkings + command frame, <=2 frames, len<=3", "Zmtp", zmtp_cfg(3, 2, "all", True, ZMTP_INV), "holds", 6))
     T.append(("Zmtp witnesses", "Zmtp", zmtp_cfg(3, 1, "all", True, []).replace("CHECK_DEADLOCK", "CONSTRAINT TrackW\nPOSTCONDITION WitnessesSeen\nCHECK_DEADLOCK"),
               "witnesses", 1))
+    # several senders on one connection (ZmtpSend.tla): whole messages survive every interleaving of the senders' write() calls
+    # when a message is one write (the code), and do not when a message is written frame by frame
+    SI = ["MessagesIntact", "WireIntact"]
+    # (witness registers are per TLC worker: runs that report witnesses use one worker)
+    T.append(("ZmtpSend one write per message, 2 senders (<=2 + 1 messages), <=2 frames, len<=2", "ZmtpSend",
+              send_cfg(1, 2, 2, [0], 2, 2, "message", SI), "holds+witnesses", 1))
+    if not q:
+        T.append(("ZmtpSend one write per message, 2 senders (<=2 + 1 messages), <=2 frames, len<=2, 2 letters", "ZmtpSend",
+                  send_cfg(1, 2, 2, [0, 1], 2, 2, "message", SI, witnesses=False), "holds", 8))
+        T.append(("ZmtpSend one write per message, 3 senders (<=2 + 1 + 1 messages), <=2 frames, len<=1", "ZmtpSend",
+                  send_cfg(0, 1, 2, [0], 3, 2, "message", SI, witnesses=False), "holds", 4))
+    T.append(("ZmtpSend one write per frame (not atomic: must violate)", "ZmtpSend",
+              send_cfg(1, 2, 2, [0], 2, 1, "frame", ["MessagesIntact"], witnesses=False), "violates:MessagesIntact", 1))
     # session
     both = ["TRUE", "FALSE"]
     if q:
@@ -927,6 +1283,17 @@ def mc_tasks(ctx):
     T.append(("Kernel code mechanism without printing error cells (mask)", "Kernel",
               kernel_cfg("code", 2, [t for t in TAGS_ALL if t != "perr"], False, ["TRUE"], ["StdoutAttributed"]), "holds", 2))
     T.append(("Kernel fixed mechanism (proposed fix)", "Kernel", kernel_cfg("fixed", n, tags_n, False, both, KERNEL_INV + ["StdoutBeforeIdle"]), "holds", 4))
+    # stdout bursts: a cell emitting several records at once; a queue that drops what does not fit must violate StdoutInOrder
+    wb = ("CHECK_DEADLOCK", "CONSTRAINT TrackWB\nPOSTCONDITION WitnessesSeenB\nCHECK_DEADLOCK")
+    T.append(("Kernel spec, <=2 requests, stdout bursts of 3, clients wait for quiescence", "Kernel",
+              kernel_cfg("spec", 2, ["burst", "kernel_info_request"], False, ["TRUE"], KERNEL_INV, pipelining=False).replace(*wb), "holds+witnesses", 1))
+    if not q:
+        T.append(("Kernel spec, <=2 requests, stdout bursts of 4, pipelined", "Kernel",
+                  kernel_cfg("spec", 2, ["burst", "kernel_info_request"], False, ["TRUE"], KERNEL_INV, burst=4), "holds", 6))
+    T.append(("Kernel fixed mechanism, housekeeping queue of 2 places filled with put_nowait (drops: must violate)", "Kernel",
+              kernel_cfg("fixed", 2, ["burst", "print", "kernel_info_request"], False, ["TRUE"], ["StdoutInOrder"], hqbound=2), "violates:StdoutInOrder", 1))
+    T.append(("Kernel fixed mechanism, unbounded housekeeping queue, same universe", "Kernel",
+              kernel_cfg("fixed", 2, ["burst", "print", "kernel_info_request"], False, ["TRUE"], KERNEL_INV + ["StdoutBeforeIdle"]), "holds", 1))
     T.append(("Kernel witnesses", "Kernel",
               kernel_cfg("spec", 2, ["perr", "forged-sig", "kernel_info_request"], True, both, []).replace(
                   "CHECK_DEADLOCK", "CONSTRAINT TrackW\nPOSTCONDITION WitnessesSeen\nCHECK_DEADLOCK"), "witnesses", 1))
@@ -977,7 +1344,12 @@ def judge_mc(ctx, tasks, results, defect_seen_on_code=True):
             if not res.ok or not info or info[-1]["unseen"]:
                 raise MachineryFailure("%s: witness predicates never violated (vacuous antecedents): %s" % (label, info or res.violated))
             nw += 1
-        elif exp == "holds":
+        elif exp in ("holds", "holds+witnesses"):
+            if exp == "holds+witnesses" and res.ok:
+                info = [x for x in res.infos if "unseen" in x]
+                if not info or info[-1]["unseen"]:
+                    raise MachineryFailure("%s: witness predicates never violated (vacuous antecedents): %s" % (label, info))
+                nw += 1
             if not res.ok:
                 ctx.report({"clause": "model:" + res.violated, "level": "model", "run": label},
                            "%s.tla violates %s (%s)" % (spec, res.violated, label), {"kind": "model", "spec": spec, "cfg": cfgtext, "cex": res.cex})
@@ -1000,7 +1372,10 @@ def judge_mc(ctx, tasks, results, defect_seen_on_code=True):
 def frame_sig(c, rj):
     lens = sorted({sum(x["n"] for x in f) for it in c["items"] if it["k"] == "msg" for f in it["frames"]})
     bucket = "long" if any(n > 255 for n in lens) else "short"
-    return {"clause": rj["why"], "subsystem": "zmtp", "frames": bucket, "fragmented": c["nchunks"] > 1}
+    sig = {"clause": rj["why"], "subsystem": "zmtp", "frames": bucket, "fragmented": c["nchunks"] > 1}
+    if len(c["senders"]) > 1:
+        sig["senders"] = "concurrent"
+    return sig
 
 
 def report_frames(ctx, recs, rejects):
@@ -1008,7 +1383,8 @@ def report_frames(ctx, recs, rejects):
     for rj in rejects:
         c = byid[rj["id"]]
         ctx.report(frame_sig(c, rj), "framing round trip rejected: %s (wire=%s dec=%s model=%s)" % (rj["why"], rj["wire"], rj["dec"], rj["model"]),
-                   {"kind": "frames", "rec": {k: c[k] for k in ("id", "fam", "items", "chunks", "nchunks")}, "got": c["got"], "left": c["left"]})
+                   {"kind": "frames", "rec": {k: c[k] for k in ("id", "fam", "items", "senders", "recv", "sched", "starts", "chunks", "nchunks") if k in c},
+                    "got": c["got"], "left": c["left"], "writes": c.get("writes", [])})
 
 
 def session_sig(rec, rj):
@@ -1108,6 +1484,37 @@ def corrupt_sessions(cases):
             if len(s) < 2 or t[s[0]]["text"] == t[s[1]]["text"]:
                 return False
             t[s[0]], t[s[1]] = t[s[1]], t[s[0]]
+        def iopub_sync(c2):
+            c2["io2"] = [x for x in c2["trace"] if x["e"] == "out" and x["ch"] == "iopub"]
+        def burst_cut(t, c2):
+            """What a bounded queue filled with put_nowait does: of a burst only the first records come out."""
+            s_ = [i for i, x in enumerate(t) if isout(x, "stream")]
+            run = [i for i in s_ if t[i]["parent"] == t[s_[0]]["parent"]] if s_ else []
+            if len(run) < 40:
+                return False
+            keep = 256 if len(run) > 256 else len(run) // 2
+            for i in reversed(run[keep:]):
+                del t[i]
+            iopub_sync(c2)
+        def burst_drop_one(t, c2):
+            s_ = [i for i, x in enumerate(t) if isout(x, "stream")]
+            if len(s_) < 40:
+                return False
+            del t[s_[len(s_) * 2 // 3]]
+            iopub_sync(c2)
+        def garble(t, c2):
+            """Two messages torn into each other on an iopub connection: neither arrives as a message."""
+            s_ = [i for i, x in enumerate(t) if isout(x) and x["ch"] == "iopub"]
+            pairs = [(i, j) for i, j in zip(s_, s_[1:]) if t[i]["t"] != t[j]["t"] and "stream" in (t[i]["t"], t[j]["t"])]
+            if not pairs or "#io" not in c2["id"]:
+                return False
+            i, j = pairs[0]
+            t[i] = dict(OUT0, t="garbled:JSONDecodeError", sigok=False)
+            t[j] = dict(OUT0, t="garbled:ValueError", sigok=False)
+            iopub_sync(c2)
+        add(c, "burst-cut", burst_cut)
+        add(c, "burst-drop-one", burst_drop_one)
+        add(c, "garble", garble)
         add(c, "drop-idle", drop(lambda x: isout(x, "status", state="idle")))
         add(c, "drop-busy", drop(lambda x: isout(x, "status", state="busy")))
         add(c, "drop-reply", drop(lambda x: x["e"] == "out" and x["ch"] == "shell"))
@@ -1138,7 +1545,7 @@ def corrupt_sessions(cases):
 def corrupt_frames(recs):
     bad = []
     for c in recs:
-        base = {k: copy.deepcopy(c[k]) for k in ("id", "items", "wire", "got", "left")}
+        base = {k: copy.deepcopy(c[k]) for k in ("id", "senders", "recv", "wire", "got", "left")}
         if c["wire"]:
             x = copy.deepcopy(base)
             x["id"] = "corrupt-wire/" + c["id"]
@@ -1153,7 +1560,38 @@ def corrupt_frames(recs):
         x["id"] = "corrupt-left/" + c["id"]
         x["left"] = 1
         bad.append(x)
-    return bad
+        if len(c["senders"]) > 1:
+            # what a send routine that is not atomic produces: the frames of two senders' messages alternate on
+            # the wire and the receiver groups them by the MORE flags it sees
+            ab = [(k, it) for k, its in enumerate(c["senders"]) for it in its[:1] if it["k"] == "msg" and len(it["frames"]) >= 2][:2]
+            if len(ab) == 2 and all(len(its) == 1 for its in c["senders"]) and len(c["senders"]) == 2:
+                fa, fb = ([unrle(f) for f in it["frames"]] for _, it in ab)
+                mixed = []                                             # (frame, MORE flag as its own sender wrote it)
+                for j in range(max(len(fa), len(fb))):
+                    mixed += [(f[j], j < len(f) - 1) for f in (fa, fb) if j < len(f)]
+                wire, got, parts = b"", [], []
+                for body, more in mixed:
+                    wire += (bytes([int(more), len(body)]) if len(body) <= 255 else bytes([int(more) + 2]) + pack(">Q", len(body))) + body
+                    parts.append(body)
+                    if not more:
+                        got.append({"k": "msg", "frames": [rle(f) for f in parts]})
+                        parts = []
+                x = copy.deepcopy(base)
+                x.update(id="corrupt-interleaved/" + c["id"], wire=rle(wire), got=got, left=0)
+                bad.append(x)
+            # a frame moved from the end of one message to the front of the next one in what was read back
+            g = c["got"]
+            if len(g) >= 2 and all(y["k"] == "msg" for y in g[:2]) and len(g[0]["frames"]) >= 2:
+                x = copy.deepcopy(base)
+                x["id"] = "corrupt-regrouped/" + c["id"]
+                x["got"][1]["frames"] = x["got"][0]["frames"][-1:] + x["got"][1]["frames"]
+                x["got"][0]["frames"] = x["got"][0]["frames"][:-1]
+                bad.append(x)
+    # a corruption that happens to be another interleaving of the same messages is not a corruption
+    byid = {c["id"]: c for c in recs}
+    key = lambda got: sorted(canon(y) for y in got)  # noqa: E731
+    return [x for x in bad if not x["id"].startswith(("corrupt-interleaved/", "corrupt-regrouped/"))
+            or key(x["got"]) != key(byid[x["id"].split("/", 1)[1]]["got"])]
 
 
 def selftest(ctx, frame_recs, session_cases):
@@ -1166,10 +1604,15 @@ def selftest(ctx, frame_recs, session_cases):
             per[tag] = per.get(tag, 0) + 1
             sb.append(c)
     missing = {"corrupt-" + t for t in ("drop-idle", "swap-reply-parent", "drop-reply", "exec-forged", "answer-forged", "count",
-                                         "stream-parent", "reply-ids", "reply-unsigned", "busy-after-reply")} - set(per)
+                                         "stream-parent", "reply-ids", "reply-unsigned", "busy-after-reply", "burst-cut", "burst-drop-one",
+                                         "garble")} - set(per)
     if missing:
         raise MachineryFailure("selftest: no accepted recording to apply %s to" % sorted(missing))
-    fb = corrupt_frames(frame_recs[:40])
+    fb = corrupt_frames(frame_recs)
+    fkinds = {x["id"].split("/")[0] for x in fb}
+    if not {"corrupt-interleaved", "corrupt-regrouped", "corrupt-wire", "corrupt-got"} <= fkinds:
+        raise MachineryFailure("selftest: no accepted framing case to apply %s to" % sorted(
+            {"corrupt-interleaved", "corrupt-regrouped", "corrupt-wire", "corrupt-got"} - fkinds))
     deferred, box = [], {}
     th = threading.Thread(target=lambda: box.update(f=validate_frames(ctx, [dict(x, fam="", chunks=[], nchunks=0) for x in fb], "corrupt", nproc=2, defer=deferred)))
     th.start()
@@ -1231,7 +1674,9 @@ def main(ctx):
         tiny_n = len(TINY) + (0 if ctx.quick else len(TINY_THOROUGH))
         ex = [["tiny", i] for i in range(tiny_n)] + [["head", i] for i in range(len(HEADS))]
         nrand = ctx.pick(800, 24000)
-        jobs = [{"seed": ctx.seed * 1000 + k, "exhaustive": ex[k::16], "random": nrand // 16, "head_limit": ctx.pick(9, 13)} for k in range(16)]
+        cx = list(range(len(CONC_PROGS)))
+        jobs = [{"seed": ctx.seed * 1000 + k, "exhaustive": ex[k::16], "random": nrand // 16, "head_limit": ctx.pick(9, 13),
+                 "conc_exhaustive": cx[k::16], "conc_random": ctx.pick(320, 8000) // 16} for k in range(16)]
         frecs = [x for r in run_workers("harness.drivers.c19", "work_frames", jobs, ctx.scratch, nproc=np_) for x in r]
         mark("T1 recorded")
         background("frej", validate_frames, ctx, frecs, "main", nproc=min(np_, ctx.pick(6, 12)))      # TLC decides, meanwhile:
@@ -1243,6 +1688,12 @@ def main(ctx):
         sjobs += [{"seed": ctx.seed * 1000 + 200 + k, "family": "rand", "mask": True, "count": nm // 8, "long": not ctx.quick} for k in range(8)]
         sjobs += [{"seed": ctx.seed * 1000 + 300 + k, "family": "rand", "mask": False, "count": nu // 4, "long": not ctx.quick} for k in range(4)]
         sjobs.append({"seed": 0, "family": "witness", "scns": [witness_scenario()]})
+        # slow peers (back-pressure on iopub / shell connections) and stdout bursts
+        npress = ctx.pick(160, 6000)
+        sjobs += [{"seed": ctx.seed * 1000 + 400 + k, "family": "press", "count": npress // 8, "long": not ctx.quick} for k in range(8)]
+        # (TLC's cost of validating a burst of n records grows with n^2: the large ones once, the others several times)
+        sizes = list(enumerate(sorted(ctx.pick(BURSTS_QUICK, [n for n in BURSTS_THOROUGH if n <= 2049] * 4 + [n for n in BURSTS_THOROUGH if n > 2049]))))
+        sjobs += [{"seed": ctx.seed * 1000 + 500 + k, "family": "burst", "sizes": sizes[k::8]} for k in range(8)]
         srecs = [x for r in run_workers("harness.drivers.c19", "work_sessions", sjobs, ctx.scratch, nproc=np_) for x in r]
         mark("T2 recorded")
     scases = [r["case"] for r in srecs]
@@ -1263,9 +1714,16 @@ def main(ctx):
     if not only:
         badf = {r["id"] for r in frej}
         bads = {r["id"] for r in srej}
-        selftest(ctx, [c for c in frecs if c["id"] not in badf and c["fam"] == "random"][:40] + [c for c in frecs if c["id"] not in badf][:10],
-                 [c for c in scases if c["id"] not in bads and not c["id"].startswith("bit/")][:150]
-                 + [c for c in scases if c["id"].startswith("bit/") and c["id"] not in bads][:10])
+        okf = [c for c in frecs if c["id"] not in badf]
+        oks = [c for c in scases if c["id"] not in bads]
+        selftest(ctx, [c for c in okf if c["fam"] == "random"][:30] + okf[:10] + [c for c in okf if c["fam"] == "conc-exhaustive"][::25][:12]
+                 + [c for c in okf if c["fam"] == "conc-random"][:12],
+                 [c for c in oks if c["id"][0] in "mu" or c["id"].startswith("witness")][:150]
+                 + [c for c in oks if c["id"].startswith("bit/")][:10]
+                 + [c for c in oks if c["id"].startswith("p")][:20]
+                 # burst recordings of moderate size (TLC's cost grows with the square of the length), one above 256 records
+                 + sorted([c for c in oks if c["id"].startswith("b") and not c["id"].startswith("bit/") and 60 <= len(c["trace"]) <= 700],
+                          key=lambda c: -len(c["trace"]))[:4])
         mark("selftest")
     for t in ths:
         t.join()
@@ -1285,7 +1743,8 @@ def coverage(ctx, frecs, srecs, frej, srej):
     def frame_nontrivial(c):
         long_ = any(sum(x["n"] for x in f) > 255 for it in c["items"] if it["k"] == "msg" for f in it["frames"])
         return c["nchunks"] > 1 or long_
-    f_distinct = {canon([c["items"], c["chunks"], c["nchunks"]]) for c in frecs if frame_nontrivial(c)}
+    f_distinct = {canon([c["senders"], c.get("sched"), c.get("starts"), c["chunks"], c["nchunks"]]) for c in frecs
+                  if (frame_nontrivial(c) if len(c["senders"]) == 1 else c.get("overlap"))}
     lens = {}
     for c in frecs:
         for it in c["items"]:
@@ -1298,9 +1757,18 @@ def coverage(ctx, frecs, srecs, frej, srej):
                       "random": sum(1 for c in frecs if c["fam"] == "random"),
                       "with_command_frames": sum(1 for c in frecs if any(it["k"] == "cmd" for it in c["items"])),
                       "rep_style_send_recv": sum(1 for c in frecs if any(it["k"] == "single" for it in c["items"])),
-                      "boundary_frame_lengths_seen": lens}
+                      "boundary_frame_lengths_seen": lens,
+                      "concurrent_senders": {
+                          "cases": sum(1 for c in frecs if len(c["senders"]) > 1),
+                          "exhaustive_schedules": sum(1 for c in frecs if c["fam"] == "conc-exhaustive"),
+                          "random": sum(1 for c in frecs if c["fam"] == "conc-random"),
+                          "three_senders": sum(1 for c in frecs if len(c["senders"]) > 2),
+                          "a_sender_wrote_while_another_was_suspended_in_a_send_routine": sum(1 for c in frecs if c.get("overlap")),
+                          "with_long_frames": sum(1 for c in frecs if len(c["senders"]) > 1 and frame_nontrivial(dict(c, nchunks=1)))}}
+    if frecs and not cov["framing"]["concurrent_senders"]["a_sender_wrote_while_another_was_suspended_in_a_send_routine"]:
+        raise MachineryFailure("vacuous coverage: no framing case in which senders overlapped")
     # ---- T2
-    scn_kinds = {"bit": 0, "m": 0, "u": 0, "witness": 0}
+    scn_kinds = {"bit": 0, "m": 0, "u": 0, "witness": 0, "p": 0, "b": 0}
     acts = {}
     forged = answered = 0
     for r in srecs:
@@ -1316,8 +1784,24 @@ def coverage(ctx, frecs, srecs, frej, srej):
     s_distinct = {canon(r["case"]["trace"]) for r in srecs
                   if any(x["e"] == "req" for x in r["case"]["trace"])}
     late = sum(1 for r in srecs if late_stdout(r["case"]["trace"]))
+    press = [r for r in srecs if r["scn"].get("pressure")]
+    bursts = {}
+    for r in srecs:
+        for x in r["case"]["trace"]:
+            if x["e"] == "req" and len(x["cell"]["prints"]) >= 7:
+                bursts[str(len(x["cell"]["prints"]))] = bursts.get(str(len(x["cell"]["prints"])), 0) + 1
+    cov["slow_peers"] = {"recordings": len(press), "sessions": len({r["scn"]["sid"] for r in press}),
+                         "with_a_suspended_drain": sum(1 for r in press if r["stats"]["suspended"]),
+                         "with_two_senders_suspended_on_one_connection": sum(1 for r in press if r["stats"]["concurrent"]),
+                         "drains_suspended": sum(r["stats"]["suspended"] for r in press),
+                         "subscriber_views_that_differ": sum(1 for r in press if r["case"]["id"].endswith("#io2") and r["case"]["io2"] != next(
+                             q for q in press if q["case"]["id"] == r["case"]["id"][:-1] + "1")["case"]["io2"])}
+    cov["stdout_bursts_records_per_cell"] = bursts
+    if srecs and (not cov["slow_peers"]["with_two_senders_suspended_on_one_connection"] or not any(int(k) > 256 for k in bursts)):
+        raise MachineryFailure("vacuous coverage: slow peers %s, bursts %s" % (cov["slow_peers"], bursts))
     cov["sessions"] = {"recorded": len(srecs), "rejected": len(srej), "single_bit_corruptions": scn_kinds["bit"],
                        "random_masked": scn_kinds["m"], "random_unmasked": scn_kinds["u"], "witness": scn_kinds["witness"],
+                       "slow_peers": scn_kinds["p"], "stdout_bursts": scn_kinds["b"],
                        "forged_requests": forged, "replies_observed": answered, "events": acts,
                        "sessions_with_stdout_after_idle_observed": late,
                        "masked_space_rejections": sum(1 for rj in srej if next(r for r in srecs if r["case"]["id"] == rj["id"])["scn"].get("mask")),
@@ -1333,8 +1817,12 @@ def coverage(ctx, frecs, srecs, frej, srej):
                    "frame header of long frames, random chunk sizes otherwise); non-trivial = fragmented into >= 2 chunks or containing a "
                    "long frame; distinct by (items, chunks).  T2: kernel sessions (1-5 bursts of 1-3 pipelined requests, two shell "
                    "connections, 0-2 identity frames, two iopub subscribers, generated cells), every single-bit corruption of the "
-                   "signature/header/parent/metadata/content frame of a small message, wrong keys; non-trivial = at least one "
-                   "request reached the kernel; distinct by the whole recording.")
+                   "signature/header/parent/metadata/content frame of a small message, wrong keys; sessions whose iopub / shell "
+                   "peers are slow (flow control: high-water mark 0..64 KiB, peer takes 1..10^6 octets per tick; one recording per "
+                   "subscriber); cells emitting 7..2049 (thorough: ..10001) stdout records in one go; non-trivial = at least one "
+                   "request reached the kernel; distinct by the whole recording.  T1 with several senders: 2-3 tasks sending 1-3 "
+                   "items each on one socket x drain() suspension schedules (every schedule over {0,1,2} for tiny programs, random "
+                   "otherwise); non-trivial = a sender wrote while another was suspended inside a send routine.")
     ctx.sample({"framing_case": {"id": frecs[len(frecs) // 2]["id"], "chunks": frecs[len(frecs) // 2]["chunks"][:40], "nchunks": frecs[len(frecs) // 2]["nchunks"]},
                 "items": [it["k"] + ":" + ",".join(str(sum(x["n"] for x in f)) for f in it.get("frames", [it.get("body", [])])) for it in frecs[len(frecs) // 2]["items"]]})
     for r in srecs:
@@ -1347,7 +1835,8 @@ def coverage(ctx, frecs, srecs, frej, srej):
             break
     ctx.assumptions += [
         "signatures are abstract in the model (injective pairing); the harness verifies HMAC-SHA256 of every message the kernel writes and hands TLC the boolean",
-        "in-memory streams stand for TCP: StreamReader fed by hand, a capturing writer whose drain() never yields (an unpaused transport)",
+        "in-memory streams stand for TCP: StreamReader fed by hand; a capturing writer whose drain() never yields (an unpaused transport), "
+        "whose drain() suspends by schedule (framing, several senders) or which implements asyncio's flow control against a slow peer (sessions)",
         "print() is logger.debug in pyscript: the session's logger is set to DEBUG, as a Jupyter user must do to see prints",
         "requests of one pipelined burst go to one shell connection; concurrent handlers on two connections are not part of the statement",
         "silent=True, unanswered message types (inspect_request, comm_*) and malformed messages (no delimiter, missing frames) are not generated",
